@@ -10,15 +10,15 @@ COMMON_PHASES = ("closure of the 3-key universe to a fixpoint (5 hasher kinds x 
                  "(tombstone families, collision chains, exactly full tables, grow/shrink cycles, 64-4096 entry caches), and the ladder "
                  "(every fill level n up to 300 / 1200, 1-2 steps); plus, for all properties but C08/C09/C16/C18, every operation sequence of <= 3 "
                  "(thorough: 4) of ~60 operations (incl. clone_from into four kinds of target, reservations that must fail and a forgotten drain) from 4 prefixes x "
-                 "{unbounded, exactly full} on 10 other instantiations of K, V, S (plain data with varying size estimate and non-bitwise Clone, "
-                 "String/&str, PathBuf looked up through another spelling of the same &Path, zero-sized key, zero-sized value, 32-byte aligned value, 200-byte inline value, default hasher, drop glue on one side only) with "
+                 "{unbounded, exactly full} on 11 other instantiations of K, V, S (plain data with varying size estimate and non-bitwise Clone, "
+                 "String/&str, PathBuf looked up through another spelling of the same &Path, zero-sized key, zero-sized value, 32-byte aligned value, 200-byte inline value, default hasher, a hash builder whose clone hashes differently, drop glue on one side only) with "
                  "their own fill ladder up to 40 / 300 and 372 periodic schedules of 70 000 / 300 000 steps; states that an operation leaves with a changed cache object although the hook's dump is unchanged "
-                 "(hidden state) are re-explored as unmerged roots")
+                 "(hidden state) are re-explored as unmerged roots, in the closure and in the seed phases")
 
 LRUMC_NOTE = ("Exhaustive within the stated alphabet, universes, seed list and depth bounds (fixpoint for the closures); every state is "
               "reached by replaying its witness history on the real code and must reproduce its canonical key. Trusted: the reference "
               "semantics (DESIGN 3.10), the canonicalisation argument (3.4), rustc; hashbrown is executed, not modelled. Not covered: "
-              "key/value/hasher types other than the instrumented ones and the 10 + 4 + 1 further instantiations (instvar, typevar, strmap), hash values "
+              "key/value/hasher types other than the instrumented ones and the 11 + 4 + 1 further instantiations (instvar, typevar, strmap), hash values "
               "outside the five hasher kinds, histories that need more than 4 distinct keys and are not within the depth bound of a seed.")
 
 MC = "explicit-state model checking of the real code (parallel BFS to a fixpoint over canonical concrete states, replay-validated witness histories, step-local and history-level reference oracle)"
